@@ -13,7 +13,7 @@ R6.5 consume = match: on every path of one tokenizer iteration the number of par
 R6.6 payload pass-through: Token::Int/Float/Boolean/String(x) builds Const{Value::<same>(x)} and the Const arm returns a clone.
 Not decided: what i64::from_str / f64::from_str accept and return (trusted std; e.g. that `inf`/`nan` parse as floats)."""
 import tables
-from absint import Interp, SYM, C, ADT, OK, ERR, SOME, NONE, Fork, Stop, fmt, is_adt, Budget, P_OK, P_ERR, P_SOME, expand_results, apps, has_subterm
+from absint import Interp, SYM, C, ADT, OK, ERR, SOME, NONE, Fork, Stop, fmt, is_adt, Budget, subst, P_OK, P_ERR, P_SOME, expand_results, apps, has_subterm
 from mirlib import short, path_endswith, callee_matches, op_place, resolve_place
 from rules.tokpaths import iteration_paths, lookahead_index, TOK
 from rules.treepaths import branches_of, is_true, seed
@@ -80,6 +80,9 @@ def r61(ctx, prog):
             key = 'end-of-input'
         elif case is not None:
             key = case
+            if isinstance(case, int) and _item is not None:
+                # the path established item == that character: `Some(c @ '"') => Ok(c)` and `Some('"') => Ok('"')` are the same
+                ret = subst(ret, _item, C(chr(case)))
         else:
             key = '?'
         table.setdefault(key, []).append(ret)
@@ -234,6 +237,11 @@ def r63_65(ctx, prog):
         want = 1 + (max(used) if used else 0)
         contiguous = used == list(range(1, len(used) + 1))
         inst = 'path[%s%s]' % (p['first'], ''.join(' %d=%s' % (s, v) for s, v in p['matched']) + (' join' if flows else ''))
+        if p['first'] == 'Literal':
+            # a word may look at what follows without consuming it (the scientific-notation guard): it consumes the two following
+            # tokens exactly when they flow into the emitted number, otherwise only itself
+            want = 3 if flows else 1
+            contiguous = True
         if p['cutoff'] != want or not contiguous:
             bad65 += 1
             ctx.violation('R6.5', inst, 'consume-mismatch', 'this path consumes %s partial tokens but matched/used look-ahead slots %s (must consume exactly 1 + the look-ahead it matched)' % (p['cutoff'], used), span=f.span)
@@ -241,6 +249,7 @@ def r63_65(ctx, prog):
             # the join is taken only when second is `-` or `+`
             signs = [t for t in p['tests'] if isinstance(t, tuple) and len(t) == 2 and isinstance(t[0], str) and 'PartialEq::eq(' in t[0] and 'PartialToken::' in t[0]]
             held = [t[0].split('PartialToken::')[-1].rstrip(')') for t in signs if t[1] in ('$otherwise', '1')]
+            held += [str(vn) for sl, vn in p['matched'] if sl == 1]  # `matches!(second, Minus | Plus)` form
             if not held or not set(held) <= {'Minus', 'Plus'} or flows != {1, 2}:
                 ctx.violation('R6.5', inst, 'join-guard', 'the three-token join is taken without establishing that the middle token is `-` or `+` (tests that held: %s, slots %s)' % (held, sorted(flows)), span=f.span)
             seen_join_signs |= set(held)
@@ -266,6 +275,7 @@ def r63_65(ctx, prog):
                 if not allowed and '$tokens' in term:
                     ctx.violation('R6.3', 'literal-path[extra-test]', 'extra-gate', 'the classification of a word depends on an additional test of its text (%s = %s) besides the int/float/bool/join attempts; such a gate changes which words are numbers (e.g. `.5e-3`)' % (term[:120], t[1]), span=f.span)
             signs_held = [t for t in p['tests'] if isinstance(t, tuple) and len(t) == 2 and isinstance(t[0], str) and 'PartialEq::eq(' in t[0] and 'PartialToken::' in t[0] and t[1] in ('$otherwise', '1')]
+            signs_held += [vn for sl, vn in p['matched'] if sl == 1 and vn in ('Minus', 'Plus')]
             if kind == 'Identifier' and signs_held and p['proven_len'] >= 3 and 'join' not in kinds:
                 ctx.violation('R6.3', 'literal-path[join-not-attempted]', 'join-gated', 'a word that is no int/float/bool, followed by `-`/`+` and a third token, is declared an identifier without attempting the scientific-notation join (an extra condition on the word gates the join; e.g. `.5e-3` would stop being a float)', span=f.span)
             if not (okorder and kind == expect and stops):
